@@ -387,8 +387,10 @@ Proof.
   apply in_flat_map. exists c. split; auto.
 Qed.
 
-Lemma hinv_empty : forall D S, hinv D S (mkH [] 0 false).
-Proof. intros D S r s H. destruct H. Qed.
+Definition first_ref (cs : list chunk) : Z := fold_left (fun a c => Z.max a (c_ref c)) cs 0.
+
+Lemma hinv_empty : forall D S n, hinv D S (mkH [] n false).
+Proof. intros D S n r s H. destruct H. Qed.
 
 Lemma head_samples_written : forall d h, hinv (disk_decls d) (disk_samples d) h ->
   forall x, In x (head_samples h) -> written d x.
@@ -420,14 +422,14 @@ Proof.
   { intros x Hx. unfold disk_samples. apply in_or_app. left. auto. }
   assert (HB : forall x, In x (smps (recs_of (d_wbl d))) -> In x (disk_samples d)).
   { intros x Hx. unfold disk_samples. apply in_or_app. right. apply in_or_app. left. auto. }
-  assert (H1 : hinv (disk_decls d) (disk_samples d) (fold_left (wal_rec cs (d_minvalid d)) crecs (mkH [] 0 false))).
+  assert (H1 : hinv (disk_decls d) (disk_samples d) (fold_left (wal_rec cs (d_minvalid d)) crecs (mkH [] (first_ref cs) false))).
   { eapply replay_wal_inv with (R := R); eauto.
     - intros r Hr. destruct (Hck r Hr); auto. right. unfold R. apply in_or_app; auto.
     - apply hinv_empty. }
   destruct (read_log (d_wal d)) as [wrecs wst] eqn:Ew.
   pose proof (read_log_in _ _ _ Ew) as Hw.
   assert (H2 : hinv (disk_decls d) (disk_samples d)
-                    (fold_left (wal_rec cs (d_minvalid d)) wrecs (fold_left (wal_rec cs (d_minvalid d)) crecs (mkH [] 0 false)))).
+                    (fold_left (wal_rec cs (d_minvalid d)) wrecs (fold_left (wal_rec cs (d_minvalid d)) crecs (mkH [] (first_ref cs) false)))).
   { eapply replay_wal_inv with (R := R); eauto.
     intros r Hr. destruct (Hw r Hr); auto. right. unfold R. apply in_or_app; auto. }
   destruct wst; try discriminate.
@@ -435,7 +437,7 @@ Proof.
     pose proof (read_log_in _ _ _ Eb) as Hb.
     assert (H3 : forall lm, hinv (disk_decls d) (disk_samples d)
                    (fold_left (wbl_rec (d_cap d) lm) brecs
-                     (fold_left (wal_rec cs (d_minvalid d)) wrecs (fold_left (wal_rec cs (d_minvalid d)) crecs (mkH [] 0 false))))).
+                     (fold_left (wal_rec cs (d_minvalid d)) wrecs (fold_left (wal_rec cs (d_minvalid d)) crecs (mkH [] (first_ref cs) false))))).
     { intros lm. eapply replay_wbl_inv with (R := recs_of (d_wbl d)); eauto. }
     destruct bst; try discriminate.
     + inversion H; subst. apply gc_inv. apply H3.
@@ -489,7 +491,7 @@ Qed.
 
 (* ------------------------------------------------------------------ what a successful open replays *)
 Definition replay (cs : list chunk) (mv cap lastmm : Z) (walrecs wblrecs : list wrec) : head :=
-  fold_left (wbl_rec cap lastmm) wblrecs (fold_left (wal_rec cs mv) walrecs (mkH [] 0 false)).
+  fold_left (wbl_rec cap lastmm) wblrecs (fold_left (wal_rec cs mv) walrecs (mkH [] (first_ref cs) false)).
 
 Theorem open_ok_shape : forall d h d' k cr cl,
   open d = OOk h d' k cr cl ->
